@@ -3765,9 +3765,27 @@ class CppEmitter(Visitor):
             counter_scalar = self._range_counter_scalar(stmt.iterable)
             storage = counter_scalar or self.storage.storage_of(target_def)
             decl = f'{storage.format()} {target}'
+            self._emit_for_loop(stmt, ctx, target, decl, target_def)
+            return
+        # The name outlives the loop (it shadows an earlier definition, or the
+        # body assigns it): iterate with a variable of the loop's own and hand
+        # each element to the name at the top of the body.  After the loop the
+        # name then holds the last *element* -- not a counter's overshoot, and
+        # not the shadowed value a loop-local declaration would leave behind --
+        # and a body that assigns the name does not disturb the iteration.
+        tmp = self._fresh_temp()
+        counter_scalar = self._range_counter_scalar(stmt.iterable)
+        if counter_scalar is not None:
+            decl = f'{counter_scalar.format()} {tmp}'
         else:
-            decl = target
-        self._emit_for_loop(stmt, ctx, target, decl, target_def)
+            decl = f'{self.storage.storage_of(target_def).format()} {tmp}'
+        header = self._for_header(stmt.iterable, tmp, decl, None, ctx)
+        self.writer.add_line(f'{header} {{')
+        self.writer.indent()
+        self.writer.add_line(f'{target} = {tmp};')
+        self._visit_block(stmt.body, ctx)
+        self.writer.dedent()
+        self.writer.add_line('}')
 
     def _emit_for_tuple_target(self, stmt: ForStmt, ctx):
         # ``for (a, b) in xs:`` — a tuple-binding target only makes
